@@ -10,6 +10,7 @@ mod c08;
 mod c09;
 mod c10;
 mod c11;
+mod c12;
 mod c13;
 mod c14;
 mod c15;
@@ -83,6 +84,7 @@ fn main() {
         "c09" => c09::run(&a),
         "c10" => c10::run(&a),
         "c11" => c11::run(&a),
+        "c12" => c12::run(&a),
         "c13" => c13::run(&a),
         "c14" => c14::run(&a),
         "c15" => c15::run(&a),
